@@ -1,4 +1,6 @@
 """C17 - deterministic, and rejected input leaves no trace."""
+import re
+
 from .lib import query as q
 from .lib.facts import strip_generics
 from .lib.symx import show, is_prefix
@@ -41,7 +43,12 @@ def r1_nondeterminism(ctx, f, rep):
         if d.startswith('rand::') or strip_generics(t['res']).startswith('<[T] as rand::'):
             rng_calls += 1
             tys = [a.get('place', {}).get('ty', a.get('ty', '')) for a in t['args']] + [t.get('selfty', ''), t.get('gargs', '')]
-            good = any(('RNG' in x) or ('impl Rng' in x) or ('impl rand::Rng' in x) for x in tys)
+            # the generator is a type parameter of the enclosing function (`RNG`, `impl Rng`, `R: Rng` ...), never a
+            # concrete generator type that could have been seeded from the environment
+            concrete = ('rand::rngs', 'ThreadRng', 'OsRng', 'StdRng', 'SmallRng', 'rand_core::', 'rand_chacha', 'getrandom')
+            good = not any(c in x for x in tys for c in concrete) and \
+                any(('RNG' in x) or ('impl Rng' in x) or ('impl rand::Rng' in x) or
+                    re.search(r'(^|[&<\s(])(mut )?[A-Z][A-Za-z0-9]{0,3}($|[>,)\s/])', x) for x in tys)
             rep.check(good, 'C17-R1', b.nname, 'rand:: routine is driven by the caller-supplied generator', site=t['span'],
                       construct='rng-source:' + d.split('::')[-1], facts={'types': [x for x in tys if x][:4]})
     rep.floor('C17-R1', rng_calls, 3, 'calls into rand::')
